@@ -27,7 +27,7 @@ CHECKS = {
    note=E1_NOTE),
  "C09": dict(engine="E1-seq+E2-sched", cat="model_checking", ref="DESIGN.md §5 C08/C09",
    technique="explicit-state BFS with the clock and the GC worker as explicit operations, upper-bound (must-be-absent) oracle",
-   text="Same search as C08 with the upper-bound oracle: ephemeral frames reach exactly the live subscriber and are never stored; no read returns an elapsed time:N frame; after a covering read and a drain it is physically gone; after a drain a topic whose newest frame is head:N holds at most N frames forming a suffix. Plus (E2) a clock actor that passes the expiry of a stored time:N frame at every point of a (following or plain) read: the frame is not delivered once the clock had passed its expiry before the scan reached it.",
+   text="Same search as C08 with the upper-bound oracle: ephemeral frames reach exactly the live subscriber and are never stored; no read returns an elapsed time:N frame; after a covering read and a drain it is physically gone; after a drain a topic whose newest frame is head:N holds at most N frames forming a suffix. Plus (E2) a clock actor that passes the expiry of a stored time:N frame at every point of a (following or plain) read: the frame is not delivered once the clock had passed its expiry before the scan reached it. Plus long topics (backlog of 66-260 frames, one head:K frame, one drain).",
    note=E1_NOTE),
 
  "C02": dict(engine="E2-sched", cat="model_checking", ref="DESIGN.md §5 C02, §4 E2",
